@@ -108,6 +108,7 @@ func Run(o Options) (string, *Stats, error) {
 		return "", nil, fmt.Errorf("go list: %v\n%s", err, stderr.String())
 	}
 	exports := map[string]string{}
+	inCone := map[string]bool{}
 	var targets []*listPkg
 	dec := json.NewDecoder(bytes.NewReader(out))
 	for dec.More() {
@@ -120,6 +121,9 @@ func Run(o Options) (string, *Stats, error) {
 		}
 		if p.Export != "" {
 			exports[p.ImportPath] = p.Export
+		}
+		if strings.HasPrefix(p.ImportPath, goZero) {
+			inCone[strings.TrimPrefix(p.ImportPath, goZero)] = true
 		}
 		if strings.HasPrefix(p.ImportPath, goZero) && allow[strings.TrimPrefix(p.ImportPath, goZero)] {
 			if p.Error != nil {
@@ -167,6 +171,17 @@ func Run(o Options) (string, *Stats, error) {
 			files = append(files, f)
 			names = append(names, gf)
 		}
+		nOwn := len(files)
+		if o.SeamsDir != "" {
+			seamFiles, _ := filepath.Glob(filepath.Join(o.SeamsDir, filepath.FromSlash(rel), "*.go"))
+			for _, sf := range seamFiles {
+				f, err := parser.ParseFile(fset, sf, nil, parser.ParseComments)
+				if err != nil {
+					return "", nil, fmt.Errorf("parse seam %s: %v", sf, err)
+				}
+				files = append(files, f)
+			}
+		}
 		info := &types.Info{
 			Types:      map[ast.Expr]types.TypeAndValue{},
 			Uses:       map[*ast.Ident]types.Object{},
@@ -185,7 +200,7 @@ func Run(o Options) (string, *Stats, error) {
 		if err := os.MkdirAll(outDir, 0o755); err != nil {
 			return "", nil, err
 		}
-		for i, f := range files {
+		for i, f := range files[:nOwn] {
 			rw := &rewriter{fset: fset, info: info, file: f, relFile: filepath.ToSlash(filepath.Join(rel, names[i])), st: st}
 			rw.rewriteFile()
 			var buf bytes.Buffer
@@ -201,26 +216,34 @@ func Run(o Options) (string, *Stats, error) {
 		}
 		st.Packages++
 	}
-	for i, used := range patchUsed {
-		if !used {
-			// the file is outside the cone of this harness: fine, unless it is in no package at all
-			_ = i
+	// patches to files of packages that are in the cone but not instrumented
+	for i, pt := range o.Patches {
+		if patchUsed[i] || !inCone[filepath.ToSlash(filepath.Dir(pt.File))] {
+			continue
 		}
+		full := filepath.Join(o.RepoDir, filepath.FromSlash(pt.File))
+		src, err := os.ReadFile(full)
+		if err != nil {
+			return "", nil, fmt.Errorf("seam patch target %s: %v", pt.File, err)
+		}
+		if prev, ok := overlay[full]; ok {
+			if src, err = os.ReadFile(prev); err != nil {
+				return "", nil, err
+			}
+		}
+		if n := strings.Count(string(src), pt.Old); n != 1 {
+			return "", nil, fmt.Errorf("seam patch for %s does not apply exactly once (%d matches): %s", pt.File, n, pt.Comment)
+		}
+		dst := filepath.Join(o.OutDir, "src", filepath.FromSlash(pt.File))
+		os.MkdirAll(filepath.Dir(dst), 0o755)
+		if err := os.WriteFile(dst, []byte(strings.Replace(string(src), pt.Old, pt.New, 1)), 0o644); err != nil {
+			return "", nil, err
+		}
+		overlay[full] = dst
+		st.Patched = append(st.Patched, pt.File)
 	}
 	// added seam files: SeamsDir/<rel path>/<file>.go  ->  RepoDir/<rel path>/<file>.go
 	if o.SeamsDir != "" {
-		inCone := map[string]bool{}
-		dec2 := json.NewDecoder(bytes.NewReader(out))
-		for dec2.More() {
-			p := &listPkg{}
-			dec2.Decode(p)
-			if strings.Contains(p.ImportPath, " [") {
-				continue
-			}
-			if strings.HasPrefix(p.ImportPath, goZero) {
-				inCone[strings.TrimPrefix(p.ImportPath, goZero)] = true
-			}
-		}
 		filepath.Walk(o.SeamsDir, func(path string, fi os.FileInfo, err error) error {
 			if err != nil || fi.IsDir() || !strings.HasSuffix(path, ".go") {
 				return nil
@@ -351,31 +374,20 @@ func (r *rewriter) rewriteFile() {
 	r.labelPre = map[*ast.LabeledStmt][]ast.Stmt{}
 	f := r.file
 
-	// comments inside function bodies are dropped: inserted nodes have no
-	// positions and the printer could otherwise misplace them
-	var bodies [][2]token.Pos
-	ast.Inspect(f, func(n ast.Node) bool {
-		switch x := n.(type) {
-		case *ast.FuncDecl:
-			if x.Body != nil {
-				bodies = append(bodies, [2]token.Pos{x.Body.Lbrace, x.Body.Rbrace})
-			}
-		case *ast.FuncLit:
-			bodies = append(bodies, [2]token.Pos{x.Body.Lbrace, x.Body.Rbrace})
-		}
-		return true
-	})
+	// Comments are dropped except the header (build constraints, package doc) and
+	// compiler directives (//go:embed, //go:generate, ...): inserted nodes have no
+	// positions and the printer could otherwise place a comment inside an expression.
 	var keep []*ast.CommentGroup
 	for _, cg := range f.Comments {
-		in := false
-		for _, b := range bodies {
-			if cg.Pos() > b[0] && cg.End() < b[1] {
-				in = true
+		if cg.End() < f.Package {
+			keep = append(keep, cg)
+			continue
+		}
+		for _, c := range cg.List {
+			if strings.HasPrefix(c.Text, "//go:") {
+				keep = append(keep, cg)
 				break
 			}
-		}
-		if !in {
-			keep = append(keep, cg)
 		}
 	}
 	f.Comments = keep
@@ -502,7 +514,9 @@ func (r *rewriter) post(c *astapply.Cursor) bool {
 			return true
 		}
 		r.st.Sites["send"]++
-		c.Replace(&ast.ExprStmt{X: r.call("Send", r.site(n), n.Chan, n.Value)})
+		c.Replace(&ast.ExprStmt{X: &ast.CallExpr{
+			Fun:  &ast.SelectorExpr{X: r.call("Ch", n.Chan), Sel: ast.NewIdent("Send")},
+			Args: []ast.Expr{r.site(n), n.Value}}})
 	case *ast.UnaryExpr:
 		if n.Op != token.ARROW || r.skip[n] {
 			return true
@@ -613,10 +627,16 @@ func (r *rewriter) postGo(c *astapply.Cursor, n *ast.GoStmt) {
 		return
 	}
 	var lhs, rhs []ast.Expr
-	fv := r.uniq("f")
-	lhs = append(lhs, fv)
-	rhs = append(rhs, call.Fun)
-	newCall := &ast.CallExpr{Fun: fv, Ellipsis: call.Ellipsis}
+	var funExpr ast.Expr
+	if r.isPlainFunc(call.Fun) {
+		funExpr = call.Fun // a declared (possibly generic) function: nothing to evaluate early
+	} else {
+		fv := r.uniq("f")
+		lhs = append(lhs, fv)
+		rhs = append(rhs, call.Fun)
+		funExpr = fv
+	}
+	newCall := &ast.CallExpr{Fun: funExpr, Ellipsis: call.Ellipsis}
 	for _, a := range call.Args {
 		tv := r.info.Types[a]
 		if tv.Value != nil || tv.IsNil() || isConstLike(tv) {
@@ -631,13 +651,41 @@ func (r *rewriter) postGo(c *astapply.Cursor, n *ast.GoStmt) {
 	if call.Ellipsis != token.NoPos {
 		newCall.Ellipsis = 1
 	}
+	goCall := &ast.ExprStmt{X: r.call("Go", r.site(n), &ast.FuncLit{
+		Type: &ast.FuncType{Params: &ast.FieldList{}},
+		Body: &ast.BlockStmt{List: []ast.Stmt{&ast.ExprStmt{X: newCall}}},
+	})}
+	if len(lhs) == 0 {
+		c.Replace(goCall)
+		return
+	}
 	c.Replace(&ast.BlockStmt{List: []ast.Stmt{
 		&ast.AssignStmt{Lhs: lhs, Tok: token.DEFINE, Rhs: rhs},
-		&ast.ExprStmt{X: r.call("Go", r.site(n), &ast.FuncLit{
-			Type: &ast.FuncType{Params: &ast.FieldList{}},
-			Body: &ast.BlockStmt{List: []ast.Stmt{&ast.ExprStmt{X: newCall}}},
-		})},
+		goCall,
 	}})
+}
+
+// isPlainFunc reports whether e denotes a declared package-level function
+// (possibly instantiated), whose evaluation has no effect and needs no early binding.
+func (r *rewriter) isPlainFunc(e ast.Expr) bool {
+	switch x := unparen(e).(type) {
+	case *ast.IndexExpr:
+		return r.isPlainFunc(x.X)
+	case *ast.IndexListExpr:
+		return r.isPlainFunc(x.X)
+	case *ast.Ident:
+		if f, ok := r.info.Uses[x].(*types.Func); ok {
+			return f.Type().(*types.Signature).Recv() == nil
+		}
+	case *ast.SelectorExpr:
+		if id, ok := x.X.(*ast.Ident); ok {
+			if _, isPkg := r.info.Uses[id].(*types.PkgName); isPkg {
+				_, isFunc := r.info.Uses[x.Sel].(*types.Func)
+				return isFunc
+			}
+		}
+	}
+	return false
 }
 
 func isConstLike(tv types.TypeAndValue) bool {
@@ -674,9 +722,11 @@ func (r *rewriter) postSelect(c *astapply.Cursor, n *ast.SelectStmt) {
 			switch s := cc.Comm.(type) {
 			case *ast.SendStmt:
 				h, v := r.uniq("h"), r.uniq("v")
-				pre = append(pre, &ast.AssignStmt{Lhs: []ast.Expr{h, v}, Tok: token.DEFINE,
-					Rhs: []ast.Expr{r.call("SelSend", sel, s.Chan, s.Value)}})
-				s.Chan = &ast.StarExpr{X: h}
+				pre = append(pre, &ast.AssignStmt{Lhs: []ast.Expr{h}, Tok: token.DEFINE,
+					Rhs: []ast.Expr{r.call("SelSend", sel, s.Chan)}})
+				pre = append(pre, &ast.AssignStmt{Lhs: []ast.Expr{v}, Tok: token.DEFINE,
+					Rhs: []ast.Expr{&ast.CallExpr{Fun: &ast.SelectorExpr{X: h, Sel: ast.NewIdent("Val")}, Args: []ast.Expr{s.Value}}}})
+				s.Chan = &ast.SelectorExpr{X: h, Sel: ast.NewIdent("C")}
 				s.Value = v
 			case *ast.ExprStmt:
 				u := isRecv(s.X)
@@ -705,6 +755,7 @@ func (r *rewriter) postRangeChan(c *astapply.Cursor, n *ast.RangeStmt) {
 	r.st.Sites["range-chan"]++
 	ch, ok := r.uniq("ch"), r.uniq("ok")
 	var head []ast.Stmt
+	var assignAfter ast.Stmt
 	recv := r.call("Recv2", r.site(n), ch)
 	switch {
 	case n.Key == nil:
@@ -712,12 +763,16 @@ func (r *rewriter) postRangeChan(c *astapply.Cursor, n *ast.RangeStmt) {
 	case n.Tok == token.DEFINE:
 		head = append(head, &ast.AssignStmt{Lhs: []ast.Expr{n.Key, ok}, Tok: token.DEFINE, Rhs: []ast.Expr{recv}})
 	default:
-		head = append(head,
-			&ast.DeclStmt{Decl: &ast.GenDecl{Tok: token.VAR, Specs: []ast.Spec{&ast.ValueSpec{Names: []*ast.Ident{ok}, Type: ast.NewIdent("bool")}}}},
-			&ast.AssignStmt{Lhs: []ast.Expr{n.Key, ok}, Tok: token.ASSIGN, Rhs: []ast.Expr{recv}})
+		// `for x = range ch`: x keeps its last value when the channel is closed
+		tmp := r.uniq("v")
+		head = append(head, &ast.AssignStmt{Lhs: []ast.Expr{tmp, ok}, Tok: token.DEFINE, Rhs: []ast.Expr{recv}})
+		assignAfter = &ast.AssignStmt{Lhs: []ast.Expr{n.Key}, Tok: token.ASSIGN, Rhs: []ast.Expr{tmp}}
 	}
 	head = append(head, &ast.IfStmt{Cond: &ast.UnaryExpr{Op: token.NOT, X: ok},
 		Body: &ast.BlockStmt{List: []ast.Stmt{&ast.BranchStmt{Tok: token.BREAK}}}})
+	if assignAfter != nil {
+		head = append(head, assignAfter)
+	}
 	if n.Key != nil && n.Tok == token.DEFINE {
 		// the key may be unused in the body only if it is blank; nothing to do
 	}
